@@ -429,7 +429,7 @@ var errSync = errors.New("service did not become quiescent")
 
 // sentinel builds the harness' barrier payload: a RecoveryRequest "from" validator 0 at height 0.
 func (n *node) sentinel() *npayload.Extensible {
-	data := []byte{0x40, 0, 0, 0, 0, 0, 0} // type, block index (LE32) = 0, validator 0, view 0
+	data := []byte{0x40, 0, 0, 0, 0, 0, 0}  // type, block index (LE32) = 0, validator 0, view 0
 	data = append(data, make([]byte, 8)...) // timestamp
 	return &npayload.Extensible{
 		Category:      npayload.ConsensusCategory,
